@@ -138,10 +138,12 @@ def mk_target(name):
         return [1, 2, 3, 4]
     if name == 'int':
         return 2
+    if name == 'sub':
+        return {'d': 2}
     raise ValueError(name)
 
 
-SHAPES = {'rec': 'rec', 'nested': 'nested', 'ints': 'ints', 'int': 'int'}
+SHAPES = {'rec': 'rec', 'nested': 'nested', 'ints': 'ints', 'int': 'int', 'sub': 'sub'}
 
 
 def graph_ids(v, out=None):
@@ -306,6 +308,9 @@ def composites(shape, kids, kids_of):
             for t3, r3 in kids_of(r2 if r2 in ('int', 'ints', 'rec', 'nested', 'sub') else nxt_shape)[:CAP['tup3']]:
                 out.append((['tuple', [t1, t2, t3]], r3))
     out.append((['tuple', []], shape))
+    for t1, r1 in kids:      # one-step chains: SKIP keeps the target, STOP returns the target
+        out.append((['tuple', [t1]], r1 if r1 not in ('SKIP', 'STOP') else shape))
+        out.append((['pipe', [t1]], r1 if r1 not in ('SKIP', 'STOP') else shape))
     # list specs
     if shape in ('ints', 'nested'):
         for t, rs in kids_of('int'):
@@ -355,7 +360,7 @@ def composites(shape, kids, kids_of):
 
 def representatives(items, tname, K):
     """first K per (constructor, outcome class)"""
-    target = mk_target(tname) if tname in ('rec', 'nested', 'ints', 'int') else None
+    target = mk_target(tname) if tname in ('rec', 'nested', 'ints', 'int', 'sub') else None
     buckets = {}
     out = []
     for term, rs in items:
@@ -371,7 +376,7 @@ def representatives(items, tname, K):
     return out
 
 
-SHAPE_TARGET = {'rec': 'rec', 'nested': 'nested', 'ints': 'ints', 'int': 'int', 'sub': None}
+SHAPE_TARGET = {'rec': 'rec', 'nested': 'nested', 'ints': 'ints', 'int': 'int', 'sub': 'sub'}
 
 
 def gen_cases(tier):
@@ -399,7 +404,7 @@ def gen_cases(tier):
     cases = []
     seen = set()
     import json
-    for tname in ('rec', 'nested', 'ints', 'int'):
+    for tname in ('rec', 'nested', 'ints', 'int', 'sub'):
         for term, rs in all_terms[SHAPES[tname]]:
             key = tname + json.dumps(term)
             if key not in seen:
